@@ -119,7 +119,7 @@ Inner     == IF Big = 1 THEN 1..3 ELSE 1..2
 AllFamilies ==
      {Fam(op, n, -1, 0) : op \in {"VaddV", "VsubV", "VmulV", "VdivV", "VaddS", "VsubS", "VmulS", "VdivS",
                                   "Set", "Reset", "Equals", "VdotV", "As", "New"}, n \in VecLens}
-\cup {Fam(op, sh[1], -1, sh[2]) : op \in {"MdotV", "VdotM"}, sh \in PosShapes}
+\cup {Fam(op, sh[1], -1, sh[2]) : op \in {"MdotV", "VdotM"}, sh \in PosShapes \cup {<<2, 0>>}}   \* <<2, 0>>: empty sums
 \cup {Fam(op, sh[1], sh[2], 0) : op \in {"MaddM", "MsubM", "MmulM", "MdivM", "MaddS", "MsubS", "MmulS", "MdivS",
                                          "Set", "Reset", "SetIdentity", "Equals", "As", "New", "Outer"}, sh \in MatShapes}
 \cup {Fam("MdotM", q[1][1], q[1][2], q[2]) : q \in {z \in PosShapes \X Inner : z[1][1] * z[2] <= 6 /\ z[2] * z[1][2] <= 6}}
